@@ -325,17 +325,24 @@ def rule_formulas(repo, rep):
   ft = astutil.inline_helpers(repo, repo.get_func('lsml._BaseLSML._total_loss'))
 
   def mask_roles(fn, left, right):
+    # the distances take their role from the difference vectors they are
+    # computed from (parameters vab / vcd), the mask from being a comparison
+    # of the two
     r = {}
+    for n in ast.walk(fn.node):
+      if isinstance(n, ast.Assign) and isinstance(n.targets[0], ast.Name):
+        nm = set(x.id for x in ast.walk(n.value) if isinstance(x, ast.Name))
+        if 'vab' in nm and 'vcd' not in nm and 'metric' in nm:
+          r[n.targets[0].id] = left
+        elif 'vcd' in nm and 'vab' not in nm and 'metric' in nm:
+          r[n.targets[0].id] = right
     for n in ast.walk(fn.node):
       if isinstance(n, ast.Assign) and isinstance(n.targets[0], ast.Name) and \
               isinstance(n.value, ast.Compare) and len(n.value.ops) == 1 and \
               isinstance(n.value.left, ast.Name) and \
-              isinstance(n.value.comparators[0], ast.Name):
-        a, b = n.value.left.id, n.value.comparators[0].id
-        if isinstance(n.value.ops[0], (ast.Lt, ast.LtE)):
-          a, b = b, a
+              isinstance(n.value.comparators[0], ast.Name) and \
+              {n.value.left.id, n.value.comparators[0].id} <= set(r):
         r[n.targets[0].id] = 'violations'
-        r[a], r[b] = left, right
     return r
   rl = mask_roles(fl0, 'dab', 'dcd')
   rg = mask_roles(fg0, 'dabs', 'dcds')
@@ -527,11 +534,25 @@ def rule_formulas(repo, rep):
   # loop variables running over the difference vectors (whatever their names)
   if loop and isinstance(loop[0].target, ast.Tuple) and \
           isinstance(loop[0].iter, ast.Call):
+    # in the zip form every symbol of the update is bound by the pairing of
+    # loop variable and sequence, never by the variable's name
+    gatoms = {k: v for k, v in gatoms.items() if not k.startswith('np.outer')}
+    genv = {k: v for k, v in genv.items()
+            if k not in ('dab', 'dcd', 'dab[violations]', 'dcd[violations]')}
+    scal = {}
     for t, a in zip(loop[0].target.elts, loop[0].iter.args):
-      base = a.value if isinstance(a, ast.Subscript) else a
-      if isinstance(t, ast.Name) and ast.unparse(base) in ('vab', 'vcd'):
+      base = ast.unparse(a.value if isinstance(a, ast.Subscript) else a)
+      if not isinstance(t, ast.Name):
+        continue
+      if base in ('vab', 'vcd'):
         gatoms['np.outer(%s, %s)' % (t.id, t.id)] = \
-            'Vab' if ast.unparse(base) == 'vab' else 'Vcd'
+            'Vab' if base == 'vab' else 'Vcd'
+      elif base == 'dabs':
+        genv[t.id] = sa * sa
+      elif base == 'dcds':
+        genv[t.id] = sc * sc
+      elif base == 'self.w_':
+        scal[t.id] = 'w'
   uexpr = upd[0].value
   # index form: `for i in np.flatnonzero(<mask>)` (or np.where(...)[0]) with
   # every sequence subscripted by the same i
@@ -581,12 +602,176 @@ def rule_formulas(repo, rep):
                 'term is %r' % (g, wantg))
 
 
+def _rowquad_of(e, vname, mname='metric'):
+  """is `e` the row-wise quadratic form v M v^T of the rows of `vname`?"""
+  t = ast.unparse(e).replace(' ', '')
+  v, m = vname, mname
+  forms = (
+      'np.sum(%s.dot(%s)*%s,axis=1)' % (v, m, v),
+      'np.sum(%s*%s.dot(%s),axis=1)' % (v, v, m),
+      'np.sum(%s@%s*%s,axis=1)' % (v, m, v),
+      '(%s.dot(%s)*%s).sum(axis=1)' % (v, m, v),
+      '(%s@%s*%s).sum(axis=1)' % (v, m, v),
+      "np.einsum('ij,ij->i',%s.dot(%s),%s)" % (v, m, v),
+      "np.einsum('ij,ij->i',%s@%s,%s)" % (v, m, v),
+      "np.einsum('ij,jk,ik->i',%s,%s,%s)" % (v, m, v),
+      'np.sum(%s.dot(%s)*%s,axis=-1)' % (v, m, v),
+      'np.sum(%s@%s*%s,axis=-1)' % (v, m, v),
+      'self._squared_distances(%s,%s)' % (m, v))
+  return t in forms
+
+
+def rule_distances(repo, rep):
+  R = 'R-FORM:lsml-distances-and-direction'
+  rep.rule(R, 'd_ab, d_cd are the row-wise quadratic forms v M v^T of v_ab = '
+           'x_a - x_b (slots 0, 1) and v_cd = x_c - x_d (slots 2, 3) of the '
+           'quadruplets, in the loss and in the gradient alike; the gradient '
+           'runs over the constraints with d_ab > d_cd; every candidate of '
+           'the line search is M - step * gradient(M) with step >= 0 '
+           '(descent, not ascent)')
+  key = 'lsml._BaseLSML.'
+  for fn, names in (('_comparison_loss', ('dab', 'dcd')),
+                    ('_gradient', ('dabs', 'dcds'))):
+    f = astutil.inline_helpers(repo, repo.get_func('lsml._BaseLSML.' + fn))
+    rep.analysed(getattr(f, 'orig', f))
+    defs = {}
+    for n in f.node.body:
+      if isinstance(n, ast.Assign) and isinstance(n.targets[0], ast.Name):
+        defs[n.targets[0].id] = n
+    found = {}
+    for nm, n in defs.items():
+      used = set(x.id for x in ast.walk(n.value) if isinstance(x, ast.Name))
+      for v in ('vab', 'vcd'):
+        other = 'vcd' if v == 'vab' else 'vab'
+        if v in used and other not in used and 'metric' in used:
+          found[v] = (nm, n)
+    for v in ('vab', 'vcd'):
+      k = key + fn + ':d(%s)' % v
+      if v not in found:
+        rep.unknown(R, k, site(f), 'distance computed from %s not found' % v)
+        continue
+      nm, n = found[v]
+      if _rowquad_of(n.value, v):
+        rep.derived(R, k, site(f, n))
+      else:
+        t = ast.unparse(n.value)
+        known_bad = ('/' in t or 'axis=0' in t)
+        rep.add(R, k, 'refuted' if known_bad else 'unknown', site(f, n),
+                '%s = %s is not the row-wise quadratic form of %s with the '
+                'metric' % (nm, t, v))
+    # mask of the gradient
+    if fn == '_gradient' and 'vab' in found and 'vcd' in found:
+      a, b = found['vab'][0], found['vcd'][0]
+      masks = [n for n in ast.walk(f.node) if isinstance(n, ast.Compare) and
+               len(n.ops) == 1 and
+               {ast.unparse(n.left), ast.unparse(n.comparators[0])} == {a, b}]
+      good = [m for m in masks if astutil.norm_atom(m) in (
+          astutil.norm_atom(ast.parse('%s > %s' % (a, b), mode='eval').body),
+          astutil.norm_atom(ast.parse('%s >= %s' % (a, b),
+                                      mode='eval').body))]
+      if not masks:
+        rep.unknown(R, key + fn + ':violations', site(f), 'mask not found')
+      else:
+        rep.add(R, key + fn + ':violations', 'derived' if len(good) ==
+                len(masks) else 'refuted', site(f, masks[0]), ''
+                if len(good) == len(masks) else 'the gradient runs over the '
+                'constraints with %s, documented d_ab > d_cd'
+                % ast.unparse(masks[0]))
+  # the difference vectors in _fit
+  f = astutil.inline_helpers(repo, repo.get_func('lsml._BaseLSML._fit'))
+  qn = f.params()[1]
+  calls = [c for c in astutil.calls_in(f.node)
+           if ast.unparse(c.func) in ('self._gradient', 'self._total_loss')]
+  roles = {}
+  for c in calls:
+    fm = repo.get_func('lsml._BaseLSML.' + c.func.attr).params()[1:]
+    for p_, a in zip(fm, c.args):
+      if p_ in ('vab', 'vcd') and isinstance(a, ast.Name):
+        roles.setdefault(p_, set()).add(a.id)
+
+  def slot(x):
+    if not isinstance(x, ast.Subscript) or ast.unparse(x.value) != qn:
+      return None
+    sl = x.slice.elts if isinstance(x.slice, ast.Tuple) else [x.slice]
+    if len(sl) in (2, 3) and isinstance(sl[1], ast.Constant):
+      return sl[1].value
+    return None
+  for p_, want in (('vab', (0, 1)), ('vcd', (2, 3))):
+    k = key + '_fit:' + p_
+    nms = roles.get(p_, set())
+    if len(nms) != 1:
+      rep.unknown(R, k, site(f), 'argument for %s not a single local' % p_)
+      continue
+    dv = [v for (n_, v) in guards.assignments(f.node, next(iter(nms)))
+          if v is not None]
+    if len(dv) == 1 and isinstance(dv[0], ast.BinOp) and \
+            isinstance(dv[0].op, (ast.Sub, ast.Add)):
+      got = (slot(dv[0].left), slot(dv[0].right))
+      if isinstance(dv[0].op, ast.Sub) and None not in got and \
+              sorted(got) == list(want):
+        rep.derived(R, k, site(f))
+      elif None not in got:
+        rep.refuted(R, k, site(f), '%s is %s: documented the difference of '
+                    'the points in slots %s of each quadruplet'
+                    % (p_, ast.unparse(dv[0]), want))
+      else:
+        rep.unknown(R, k, site(f), '%s = %s not recognised'
+                    % (p_, ast.unparse(dv[0])))
+    else:
+      rep.unknown(R, k, site(f), 'definition of %s not recognised' % p_)
+  # descent direction
+  k = key + '_fit:descent'
+  grads = set(n.targets[0].id for n in ast.walk(f.node)
+              if isinstance(n, ast.Assign) and
+              isinstance(n.targets[0], ast.Name) and
+              isinstance(n.value, ast.Call) and
+              ast.unparse(n.value.func) == 'self._gradient')
+  st0 = [n for n in ast.walk(f.node) if isinstance(n, ast.Assign) and
+         ast.unparse(n.targets[0]) == 'self.components_']
+  Mn = ast.unparse(st0[-1].value.args[0]) if st0 and \
+      isinstance(st0[-1].value, ast.Call) and st0[-1].value.args else None
+  cands = []
+  for n in ast.walk(f.node):
+    if isinstance(n, ast.BinOp) and isinstance(n.op, (ast.Sub, ast.Add)) and \
+            ast.unparse(n.left) == Mn and \
+            any(isinstance(x, ast.Name) and x.id in grads
+                for x in ast.walk(n.right)):
+      cands.append(n)
+  if not cands or not grads:
+    rep.unknown(R, k, site(f), 'line-search candidate M -/+ step * gradient '
+                'not found')
+  for n in cands:
+    r_ = n.right
+    ok_form = isinstance(r_, ast.BinOp) and isinstance(r_.op, ast.Mult) and \
+        any(isinstance(x, ast.Name) and x.id in grads
+            for x in (r_.left, r_.right))
+    if isinstance(n.op, ast.Add) and ok_form:
+      rep.refuted(R, k, site(f, n), 'the candidate is %s: a step ALONG the '
+                  'gradient increases the objective' % ast.unparse(n))
+    elif ok_form:
+      rep.derived(R, k, site(f, n))
+    else:
+      rep.unknown(R, k, site(f, n), 'candidate %s not recognised'
+                  % ast.unparse(n))
+  # step sizes are non-negative: np.logspace(...) divided by the gradient norm
+  sdefs = [v for (n_, v) in guards.assignments(f.node, 'step_sizes')
+           if v is not None]
+  if sdefs:
+    okp = isinstance(sdefs[0], ast.Call) and canon(
+        repo.dotted(f.module, sdefs[0].func) or '') in (
+            canon('numpy.logspace'), canon('numpy.geomspace'))
+    rep.add(R, key + '_fit:step-sizes', 'derived' if okp else 'unknown',
+            site(f), '' if okp else 'step sizes %s not recognised as '
+            'positive' % ast.unparse(sdefs[0]))
+
+
 def check(repo, rep, tier):
   rule_acceptance(repo, rep)
   rule_stopping(repo, rep)
   rule_spd_floor(repo, rep)
   rule_loss_gradient_inputs(repo, rep)
   rule_formulas(repo, rep)
+  rule_distances(repo, rep)
   # the caller's weights are not modified (FRESH rule of C17, LSML only)
   before = len(rep.obs)
   c17.rule_writes(repo, rep)
